@@ -26,7 +26,7 @@ CLAIMS = {
              'under start-1+overlap <= bound), finding_C12_overlap (witness of the excluded region), '
              'len_only_after_failed_probe / unbounded_no_len, unbatched_pulls_all_once; SequenceFromIter.__getitem__ / __len__ are '
              'TRANSLATED from /repo on every run (GenCode.sfiGetitemGen / sfiLenLoopGen) and proved equal to the model '
-             '(gen_getitem_is_model, gen_len_is_model, gen_len_is_lenOp); correspondence against real '
+             '(gen_getitem_is_model, gen_len_is_model, gen_len_is_lenOp); sequence_supports_subscription / sequence_ensure_subscription / SequenceFromIter.__init__ are TRANSLATED too (harness/trans_ensure.py -> GenEnsure.lean: gen_supports_subscription_is_model = SeqKind.listLike over the ten object kinds, gen_ensure_is_model = Batch.ensure, gen_sfi_init_is_model = LazySt.init, gen_fresh_wrapper_pulled_nothing, gen_getitem_on_fresh_wrapper, gen_wrapped_pulls_sequential); correspondence against real '
              'counting iterators/generators (bounded and unbounded)',
         note='Trusted: Lean kernel; LazySt model of the iterator wrapper and the access trace validated by '
              'correspondence (pull counts equal on every case). Partial: bound proved outside the known-finding region',
